@@ -184,6 +184,62 @@ def specTransparent (flash old : List Msg) (o : ObsTransparent) (scriptKeys : Li
       else if o.keyed3 ≠ expectedKeyed scriptKeys [] then some "keyed-readers"
       else none
 
+/-- what the relaying handler must attach, given the messages it must have received (spec side,
+    written directly on messages) -/
+def relayExpected (mode : RelayMode) (flash : List Msg) : List Msg :=
+  match mode with
+  | .same => flash
+  | .rev => flash.reverse
+  | .chg => match flash with
+    | [] => []
+    | m :: r => { m with value := m.value ++ [33] } :: r
+
+/-- re-flash exchange with a verbatim-copying client: /go issues, /relay consumes and redirects
+    again with the messages it received, /show twice -/
+structure ObsRelay where
+  issued : Option Bytes
+  st2 : Nat
+  seen2 : String
+  keyed2 : String
+  issued2 : Option Bytes
+  exp2 : Bool
+  st3 : Nat
+  seen3 : String
+  keyed3 : String
+  exp3 : Bool
+  st4 : Nat
+  seen4 : String
+  keyed4 : String
+
+def specRelay (flash : List Msg) (mode : RelayMode) (o : ObsRelay) (scriptKeys : List Bytes := []) : Option String :=
+  if flash = [] then
+    if o.issued.isSome ∨ o.issued2.isSome then some "no-messages-no-cookie"
+    else if o.seen2 ≠ "-" ∨ o.seen3 ≠ "-" ∨ o.seen4 ≠ "-" ∨ o.exp2 ∨ o.exp3 then some "no-cookie-none"
+    else none
+  else
+    match o.issued with
+    | none => some "issued"
+    | some v =>
+      if (parse v).map renderSeen ≠ some (renderSeen flash) then some "encode-faithful"
+      else if !transparentSafe v then some "wire-safe"
+      else if o.st2 ≠ 302 ∨ o.seen2 ≠ renderSeen flash then some "delivered"
+      else if o.keyed2 ≠ expectedKeyed scriptKeys flash then some "keyed-readers"
+      else
+        -- second hop: the consuming request attached messages itself, so its response must carry
+        -- them (not just the expiry of the cookie it consumed)
+        let again := relayExpected mode flash
+        match o.issued2 with
+        | none => some "reissued"
+        | some v2 =>
+          if (parse v2).map renderSeen ≠ some (renderSeen again) then some "reissued-faithful"
+          else if !transparentSafe v2 then none      -- the new value cannot cross the wire: K1 territory, nothing more to check
+          else if o.st3 ≠ 200 ∨ o.seen3 ≠ renderSeen again then some "delivered"
+          else if o.keyed3 ≠ expectedKeyed scriptKeys again then some "keyed-readers"
+          else if !o.exp3 then some "expired"
+          else if o.st4 ≠ 200 ∨ o.seen4 ≠ "-" then some "once"
+          else if o.keyed4 ≠ expectedKeyed scriptKeys [] then some "keyed-readers"
+          else none
+
 /-- one request of a decode history -/
 structure ObsStep where
   status : Nat
